@@ -12,20 +12,20 @@ def prop(pid, cat, tech, text, note, ref):
 CORR = ("Tie to the code: Rust harness built from /repo's working tree (debug+release, hooks on) and the extracted Coq model run the same seeded, relation-aware histories; the property's view of every observation is compared and the property's own statement (monitors extracted from coq/theories/Monitor.v) is evaluated on the implementation's states. ")
 TB = ("Trusted: Coq 8.16.1 kernel + VM, no axioms (Print Assumptions closed for every pinned theorem); the hand-written model coq/theories (validated by the correspondence run, which samples); extraction (ExtrOcamlBasic only) + OCaml glue; Rust harness, rustc/cargo; tools/vlib.py. ")
 
-EXPL = "Coq model + differential correspondence + property monitors (theorems for this property are still being proved; see DESIGN.md)"
-prop("C01", "exploration", EXPL, "Refinement theorems (detach/insert/remove preserve the representation invariant Repr of coq/theories/Forest.v) are in progress; until they are pinned in coq/props/C01.v this check decides the property by correspondence: model==implementation on all links after every step, and the monitor c01_check (the property text over computed views) on every implementation state. " + CORR, TB + "Sampling only until the theorems land.", "6.1")
-prop("C02", "exploration", EXPL, "Bounded parent/sibling walks (monitor c02_check) on every implementation state; every library call runs under a process timeout (a hang is a violation); iterator outputs compared with the model. " + CORR, TB + "Sampling only until the theorems land.", "6.2")
-prop("C03", "exploration", EXPL, "Every successful insert/detach/append_value is compared with the abstract forest operation of coq/theories/Forest.v (monitor check_step: abs(after) = f_op(abs(before)), stamps/payloads untouched), whole-arena equality via ==. " + CORR, TB + "Sampling only until the theorems land.", "6.3")
-prop("C04", "exploration", EXPL, "remove / remove_subtree compared with f_remove / f_remove_subtree on the abstract forest computed from the implementation's dumps; set of removed nodes, survivors' payloads. " + CORR, TB + "Sampling only until the theorems land.", "6.4")
-prop("C05", "exploration", EXPL, "Outcome of each of the eight insert entry points vs `impossible` computed from the dump (Err iff impossible, reason applies, arena == snapshot after Err/panic, unchecked panics iff checked errs), debug and release, relation-aware argument pairs incl. removed ids. " + CORR, TB + "Sampling only until the theorems land.", "6.5")
-prop("C06", "exploration", EXPL + "; exhaustive comparison of the four NodeStamp functions over all 65536 i16 values", "NodeStamp functions compared with the model over ALL 65536 inputs in debug and release (exhaustive, incl. wrap-around and panics) and the generation laws checked on the implementation's table; one slot recycled 33000+ times across and beyond the end of its generation counter with is_removed of every issued id checked; ordinary histories: every new id distinct, is_removed monotone and exact. " + CORR, TB + "Theorems (AllocOK invariant) in progress.", "6.6")
-prop("C07", "exploration", EXPL, "Allocation monitors: new id's slot held no live node, no other node touched, count rule, free list drained by allocations == reusable removed slots (each exactly once). " + CORR, TB + "Theorems (FreeOK invariant) in progress.", "6.7")
-prop("C08", "exploration", EXPL, "Payload tokens with identity and a logging Drop impl: payload behind every live id after every step, drop log == payloads ever held (each exactly once) at the end of every history. " + CORR, TB + "Rust drop semantics is modelled (returned explicitly by free_node/clear/write).", "6.8")
-prop("C09", "proof", "Coq proof: traversals = Euler tour / pre-order of the embedded rose tree (induction on trees), + correspondence", "Theorems C09_* (coq/props/C09.v): for every rose tree laid out in an arena, traverse/reverse_traverse/descendants/children/reverse_children yield exactly the documented sequences and consecutive tour edges are one next_traverse/prev_traverse step apart, no fuel exhaustion. Ancestors/predecessors/sibling iterators: by correspondence + monitors (spec sequences computed from the dump) for every live start node. " + CORR, TB, "6.9")
-prop("C10", "proof", "Coq proof: (head,tail) machine = deque specification for every pull sequence (induction on pulls), + correspondence", "Theorems C10_* (coq/props/C10.v): for EVERY sequence of front/back pulls over any linked sibling run the double-ended machine returns exactly de_spec (front pulls forward, back pulls backward, each element once, then None at both ends). Constructors' choice of (head, tail) for parentless nodes: correspondence + monitors with random pull patterns from every live node. " + CORR, TB, "6.10")
-prop("C11", "exploration", EXPL + "; implementation self-checks with real references", "Lookup agreement checked on the implementation itself (addresses of get / Index / get_mut, get_node_id of own, cloned and foreign references, positions vs iter()/as_slice(), counts, out-of-range) plus get_node_id_at compared with the documented answer computed from the dump. Pointer arithmetic in get_node_id cannot be exhibited by a theorem. " + CORR, TB, "6.11")
-prop("C12", "exploration", EXPL, "Monitors: removed slots have no links (every state), no live link names a removed id (c01), all nine entry points refuse a removed id in either position without changing the arena. " + CORR, TB + "Sampling only until the theorems land.", "6.12")
-prop("C13", "exploration", EXPL + "; determinism and clone-independence experiments", "Same seeded histories executed twice -> identical observations; fork/swap histories: a clone compares equal and the value not in use never changes; clear() -> empty arena and model continues from init; reserve/with_capacity/clear capacity guarantees on the implementation. " + CORR, TB, "6.13")
+REACH = "Theorems are stated over EVERY valid history from the empty arena (induction over the operation list; invariant WF = Repr /\\ AllocOK of coq/theories/Props.v, preserved by every valid call: proofs/Assembly.v step_WF). Release semantics (dbg=false); debug builds by correspondence. "
+prop("C01", "proof", "Coq proof: representation invariant (ghost ordered forest) preserved by every operation => LinksOK on every reachable arena; + correspondence and the same statement as executable monitor on implementation states", "Theorems C01_links_wellformed / C01_monitor_silent / C01_represents_forest (coq/props/C01.v): after any valid history the arena satisfies LinksOK (the property text over the arena's fields) and the executable monitor c01_check is silent. " + REACH + CORR, TB, "6.1")
+prop("C02", "proof", "Coq proof: depth relation in the invariant => finite duplicate-free walks bounded by the number of live nodes; no valid call diverges; + bounded walks and timeouts on the implementation", "Theorems C02_* (coq/props/C02.v): parent / next / prev walks from every live node of every reachable arena are finite NoDup paths no longer than the number of live nodes; every iterator returns Ok with NoDup output; no valid call returns Diverge and the only panics are the documented refusals. " + REACH + CORR, TB, "6.2")
+prop("C03", "proof", "Coq refinement proof: each successful insert/detach/append_value commutes with list surgery on the abstract forest; arena equality for no-op reinsert and append_value = new_node;append", "Theorems C03_* (coq/props/C03.v): C03_insert / C03_detach / C03_append_value (Repr after = f_op of Repr before, same_shape), C03_reinsert_noop and C03_append_value_eq as arena equalities, C03_*_means spelling out the list surgery. " + REACH + CORR, TB, "6.3")
+prop("C04", "proof", "Coq refinement proof: remove = substitute x by its children; remove_subtree removes exactly the pre-order of x", "Theorems C04_* (coq/props/C04.v): C04_remove (f_remove, removed set grows by exactly x), C04_remove_subtree (f_remove_subtree, removed set grows by exactly the pre-order D of x). " + REACH + CORR, TB, "6.4")
+prop("C05", "proof", "Coq proof: Err <-> impossible (decidable), reason applies, arena unchanged; unchecked panics iff checked errs; no other valid call panics or diverges", "Theorems C05_* (coq/props/C05.v) for the eight entry points and every pair of usable ids in every reachable world. Release semantics are proved; debug-assertion builds are decided by the correspondence runs (debug + release, every relation class incl. removed ids). " + REACH + CORR, TB + "The forall-dbg version (no debug assertion fires) is not yet proved.", "6.5")
+prop("C06", "proof", "Coq proof: allocation invariant over worlds (NoDup issued, is_removed exact, stamps in i16) for histories of any length; stamp arithmetic over the whole i16 range; exhaustive 65536-input comparison and 33000-cycle wrap history on the implementation", "Theorems C06_* (coq/props/C06.v): ids unique, is_removed exact and total, removed forever (absent clear), no overflow, generation strictly increases per cycle (forall dbg), exhausted slot retired. Tie: NodeStamp functions compared over ALL 65536 inputs in debug and release; one slot recycled 33000+ times across the end of its counter. " + REACH + CORR, TB, "6.6")
+prop("C07", "proof", "Coq proof: free-list ghost invariant; new_node pops the head or grows by one and touches no other slot; free_node appends exactly when reusable", "Theorems C07_* (coq/props/C07.v) in every reachable world. Tie: allocation monitors (slot not live, others untouched, count rule) and the free list drained by allocations == reusable removed slots. " + REACH + CORR, TB, "6.7")
+prop("C08", "proof", "Coq proof: payload frame lemma per step and multiset accounting (Permutation) of introduced = dropped ++ stored over whole histories", "Theorems C08_* (coq/props/C08.v). Tie: payload tokens with identity and a logging Drop impl: payload behind every live id after every step, drop log == payloads ever held at the end of every history. " + REACH + CORR, TB + "Rust drop semantics is modelled (free_node/clear/write return what they drop).", "6.8")
+prop("C09", "proof", "Coq proof: traversals = Euler tour / pre-order of the rose tree of the abstract forest (induction on trees); link-following iterators = is_path; steps inverse; from every live node of every reachable arena", "Theorems C09_* (coq/props/C09.v): all nine iterators from every live node of every reachable arena yield exactly the documented sequences (no fuel exhaustion), traverse confined to the subtree, reverse_traverse its reversal, next_traverse/prev_traverse inverse on all live edges. " + REACH + CORR, TB, "6.9")
+prop("C10", "proof", "Coq proof: (head,tail) machine = deque specification for every pull sequence (induction on pulls), + correspondence", "Theorems C10_* (coq/props/C10.v): for EVERY sequence of front/back pulls over any linked sibling run the double-ended machine returns exactly de_spec (front pulls forward, back pulls backward, each element once, then None at both ends). C10_*_reachable: from every live node of every reachable arena (children, following, preceding; parentless nodes in top-level chains included). " + REACH + CORR, TB, "6.10")
+prop("C11", "proof", "Coq proof of the index/stamp logic of every lookup path (partial: references abstracted to positions); implementation self-checks with real references", "Theorems C11_* (coq/props/C11.v) for every arena. Lookup agreement checked on the implementation itself (addresses of get / Index / get_mut, get_node_id of own, cloned and foreign references, positions vs iter()/as_slice(), counts, out-of-range) plus get_node_id_at compared with the documented answer computed from the dump. Pointer arithmetic in get_node_id cannot be exhibited by a theorem. " + CORR, TB, "6.11")
+prop("C12", "proof", "Coq proof: removed slots have no links (invariant), links of live nodes name live nodes, all nine entry points refuse a removed id atomically", "Theorems C12_* (coq/props/C12.v). " + REACH + "Monitors: removed slots have no links (every state), no live link names a removed id (c01), all nine entry points refuse a removed id in either position without changing the arena. " + CORR, TB, "6.12")
+prop("C13", "proof", "Coq proof (partial): behaviour is a function of the arena value alone, clear() continues exactly like a new arena, capacity guarantees for any growth policy; determinism and clone-independence experiments on the implementation", "Theorems C13_* (coq/props/C13.v). Same seeded histories executed twice -> identical observations; fork/swap histories: a clone compares equal and the value not in use never changes; clear() -> empty arena and model continues from init; reserve/with_capacity/clear capacity guarantees on the implementation. " + CORR, TB, "6.13")
 prop("C14", "proof", "Coq proof: writer state machine = render specification (induction on rose trees, all chunkings), + byte-exact correspondence", "Theorem C14_print (coq/props/C14.v): for every tree shape, every start node, every payload rendering given as an arbitrary chunking (non-empty, not ending in newline, interior empty lines allowed), four modes, debug and release: the IndentWriter machine outputs exactly `render`, never panics, never exhausts fuel. Tie: byte-exact comparison of the four outputs from every live node with generated multi-line / multi-chunk / UTF-8 renderings, and with `render` computed from the dump. " + CORR, TB, "6.14")
 prop("C15", "exploration", "Coq model of the macro's flattening loop + generated program, compared with real tree! invocations compiled by rustc", "A batch of random tree literals (shapes, widths, depths, both root forms, `=> {}` and trailing-comma spellings, side-effecting expressions) is compiled against /repo and the returned root, evaluation log and full arena dump are compared with MacroModel.tree_macro_full. Theorem (flatten+interpret = graft of the literal) in progress.", TB + "syn parsing, quote! splicing and autoref dispatch are modelled, not verified.", "6.15")
 prop("C16", "proof", "Coq proof: decode (encode a ++ rest) = Some (a, rest) for every arena (structural induction), + token-level correspondence", "Theorems C16_roundtrip / C16_injective / C16_continue (coq/props/C16.v) over the serde data-model view of the derived impls, for every arena value with i16 stamps. Tie: the implementation's token stream (in-harness Serializer) must equal `encode` of the dumped arena, deserialize(serialize(a)) == a, and histories continue on the round-tripped copy. " + CORR, TB + "serde_derive's expansion is modelled.", "6.16")
